@@ -356,13 +356,27 @@ func applyFault(kind string, g []byte, rnd *rand.Rand) []byte {
 
 // runSession performs one real Reader.ReadDocument against a freshly personalised chip.
 func runSession(p *perso.Passport, o sessOpt, maxLe int, faults []faultSpec, aaChallenge []byte, seed int64) (out sessOutcome) {
+	if sessionHangs.Load() >= 3 {
+		// three reads did not come back even when repeated alone (each reported): the remaining ones are skipped so that
+		// the check itself ends
+		return sessOutcome{err: "skipped: earlier reads did not return", filesEqual: true}
+	}
 	out = runSessionOnce(p, o, maxLe, faults, aaChallenge, seed)
 	if out.dur > 15*time.Second || strings.Contains(out.err, "did not return") {
 		// a wall-clock observation: measured again, alone, before anything is concluded from it
-		core.Calm(func() { out = runSessionOnce(p, o, maxLe, faults, aaChallenge, seed) })
+		core.Calm(func() {
+			if sessionHangs.Load() < 3 {
+				out = runSessionOnce(p, o, maxLe, faults, aaChallenge, seed)
+			}
+		})
+		if strings.Contains(out.err, "did not return") {
+			sessionHangs.Add(1)
+		}
 	}
 	return out
 }
+
+var sessionHangs atomic.Int32
 
 func runSessionOnce(p *perso.Passport, o sessOpt, maxLe int, faults []faultSpec, aaChallenge []byte, seed int64) (out sessOutcome) {
 	rnd := rand.New(rand.NewSource(seed))
@@ -1014,6 +1028,31 @@ func offlineVerify(blob []byte, trust [][]byte, aaChallenge []byte) (out offline
 		}
 	}()
 	return offlineVerifyImpl(blob, trust, aaChallenge)
+}
+
+// offlineVerifyAfter: one Verifier object verifies `first` and then `blob` (the verdict on a bundle does not depend on
+// what the same verifier verified before).
+func offlineVerifyAfter(first, blob []byte, trust [][]byte) (out offlineOut) {
+	defer func() {
+		if r := recover(); r != nil {
+			out.err = fmt.Sprintf("panic: %v", r)
+		}
+	}()
+	pool := &cms.GenericCertPool{}
+	for _, t := range trust {
+		if err := pool.Add(t); err != nil {
+			out.err = "trust store: " + err.Error()
+			return
+		}
+	}
+	v := verifierNew(pool)
+	_, _ = v.Verify(first)
+	de, err := v.Verify(blob)
+	if err != nil {
+		out.err = err.Error()
+	}
+	out.docEx = de
+	return
 }
 
 func offlineVerifyImpl(blob []byte, trust [][]byte, aaChallenge []byte) (out offlineOut) {
